@@ -36,8 +36,97 @@ def replay_factory(run, w, layout):
     return rp
 
 
+def delta(x):
+    return x * (x - 1) * (x - 2) * (x - 3) % R
+
+
+def cancelling_pair():
+    """(u, v), both outside {0,1,2,3}, with delta(u) + delta(v) = 0 in F_r (two square roots:
+    delta(t + 3/2) is biquadratic in t)"""
+    inv2, inv16 = pow(2, R - 2, R), pow(16, R - 2, R)
+    for u in range(4, 400):
+        k = delta(u)
+        # s^2 - (5/2) s + (9/16 + k) = 0,  s = t^2,  v = t + 3/2
+        disc = (25 * pow(4, R - 2, R) - 4 * (9 * inv16 + k)) % R
+        sq = xe.sqrt_mod(disc)
+        if sq is None:
+            continue
+        for sg in (sq, R - sq):
+            s_ = (5 * inv2 + sg) * inv2 % R
+            t = xe.sqrt_mod(s_)
+            if t is None:
+                continue
+            v = (t + 3 * inv2) % R
+            if v > 3 and (delta(u) + delta(v)) % R == 0:
+                return u, v
+    return None
+
+
+def merged_component_forgery(run, rowsem, w):
+    """The range widget splits into fewer than four independent quad identities: two quads of one
+    row are only constrained through the SUM of their delta polynomials.  Build an assignment that
+    exploits it (honest chain for x = 0, one row gets a cancelling non-quad pair, the rest of the
+    chain is recomputed) and let the solver confirm it satisfies every row before the replay."""
+    pair = cancelling_pair()
+    if pair is None:
+        return
+    layout, _ = extract(run, ["range_bits", w], env={"x": "%064x" % 0})
+    qr = xe.SEL.index("q_range")
+    rows = [i for i, (sel, _) in enumerate(layout.gates) if sel[qr] % R]
+    if not rows:
+        return
+    u, v = pair
+    names = ["d", "c", "b", "a", "d_w"]
+    for (pu, pv) in ((2, 3), (3, 4), (1, 2), (1, 3), (2, 4), (1, 4)):   # which two chain steps get (u, v)
+        vals = {i: x for i, x in enumerate(layout.witnesses)}
+        r0 = rows[0]
+        started = False
+        pinned = set()
+        for i in rows:
+            wd, nxt = layout.gates[i][1], layout.gates[i + 1][1]
+            chain = [wd[3], wd[2], wd[1], wd[0], nxt[3]]
+            pinned |= set(chain)
+            for step in range(1, 5):
+                digit = 0
+                if i == r0 and step == pu:
+                    digit, started = u, True
+                elif i == r0 and step == pv:
+                    digit = v
+                if started or i != r0:
+                    vals[chain[step]] = (4 * vals[chain[step - 1]] + digit) % R
+        # the accumulator chain is pinned; everything else (the value x tied to the last accumulator,
+        # helper witnesses) is completed by the solver
+        q = xe.Query()
+        xe.encode_layout(q, rowsem, layout)
+        for i in pinned | {0, 1}:
+            nm = smt.vname(xe.wname(i))
+            if nm in q.vars:
+                q.add(f"(= {nm} {vals[i]})")
+        r = smt.check(q.lines(), q.asserts, "z3", 30, get_model=True)
+        if r.status != "sat":
+            continue
+        model = {smt.vname(xe.wname(i)): x for i, x in vals.items()}
+        model.update(r.model)
+        xval = model.get(smt.vname(xe.wname(layout.inputs["x"])), 0) % R
+        ok, det = replay_factory(run, w, layout)(model)
+        import json
+        import os
+        d = os.path.join(fw.OUT, "cex")
+        os.makedirs(d, exist_ok=True)
+        path = os.path.join(d, f"C09_merged_components_w{w}.json")
+        json.dump({"property": "C09", "what": "two quad identities are enforced only through their sum",
+                   "cancelling_pair": [hex(u), hex(v)], "steps": [names[pu], names[pv]], "x": hex(xval),
+                   "replay_detail": det, "replayed": ok}, open(path, "w"), indent=1)
+        if ok:
+            run.violations.append((f"range/merged-components/w{w}", path))
+            return
+    run.notes.append("the range widget has fewer than four components but no cancelling-pair forgery verified")
+
+
 def run(run):
     rowsem = load_rowsem(run)
+    if len(rowsem.comp.get("range", [])) < 4:
+        merged_component_forgery(run, rowsem, 16)
     run.add_functions(["Composer::component_range_bits::<W>", "Composer::component_range::<W/2>",
                        "Composer::range_check", "Composer::range_check_even", "Composer::initialized",
                        "Composer::component_boolean", "Composer::gate_add", "Composer::assert_equal"])
